@@ -51,14 +51,25 @@ def run(ctx):
         seen = set()
         for p in ps:
             sh = p.ret_shape()
-            # emptiness test precedes everything
-            em = [t for t in p.tests if t[3][0] == "call" and pa.short(t[3][1]) == "is_empty"]
-            first_idx = [e for e in p.calls() if pa.short(e[2].ckey) in ("index",)]
-            if sh == "Err(HeaderError::InvalidHeaderName)" and em and em[0][2] == "true":
+            # the emptiness test (is_empty() or a length comparison on the name) precedes everything
+            from engine import panics
+            nm = None
+            for e in p.calls():
+                if pa.short(e[2].ckey) == "as_ref" and e[3] and e[3][0] == ("param", 1, ()):
+                    nm = ("call", e[2].ckey, e[3], e[1])
+                    break
+            cands = [t[3][2][0] for t in p.tests if t[3][0] == "call" and pa.short(t[3][1]) == "is_empty" and t[3][2]] + \
+                    [x for t in p.tests for x in (panics._slice_of_len(a) for a in (expr.cmp_nf(t[3], t[2]) or (None, None, None))[::2] if a is not None) if x is not None]
+            em = None
+            for c in cands:
+                em = panics.emptiness(p.tests, c, prog.consts)
+                if em is not None:
+                    break
+            if sh == "Err(HeaderError::InvalidHeaderName)" and em is True:
                 ctx.ok("C12-a", fp.key + ":empty name rejected", "")
                 seen.add("empty")
                 continue
-            ctx.check(bool(em) and em[0][2] == "false", "C12-a", fp.key, "name inspected only after the emptiness test (%s)" % sh[:30],
+            ctx.check(em is False, "C12-a", fp.key, "name inspected only after the emptiness test (%s)" % sh[:30],
                       "a path reads the field name without first establishing that it is not empty (an empty name would panic on name[0] "
                       "or be accepted)", "", None, p.describe())
             if sh.startswith("Ok(Field::"):
